@@ -502,9 +502,27 @@ def shapes_dtypes(index: RepoIndex, rep, rule_shape: str, rule_dtype: str) -> No
         # expanded return is the whole expression
 
         def tiled(x: ast.AST, bound: str) -> bool:
-            return isinstance(x, ast.Call) and src(x.func) in ('np.tile', 'numpy.tile') and \
-                len(x.args) == 2 and not x.keywords and src(x.args[0]) == f'{gor}.{bound}' and \
-                dims_of(x.args[1]) == hw
+            # np.tile(b, (h, w, 1))  /  np.broadcast_to(b, (h, w) + b.shape)[.copy()]: the
+            # per-object bound vector repeated over the cells of the grid
+            if isinstance(x, ast.Call) and src(x.func) in ('np.tile', 'numpy.tile') and \
+                    len(x.args) == 2 and not x.keywords and \
+                    src(x.args[0]) == f'{gor}.{bound}' and dims_of(x.args[1]) == hw:
+                return True
+            if isinstance(x, ast.Call) and isinstance(x.func, ast.Attribute) and \
+                    x.func.attr == 'copy' and not x.args and not x.keywords:
+                x = x.func.value
+            if isinstance(x, ast.Call) and src(x.func) in ('np.broadcast_to',
+                                                           'numpy.broadcast_to') and \
+                    len(x.args) == 2 and not x.keywords and src(x.args[0]) == f'{gor}.{bound}':
+                sh = x.args[1]
+                own = {f'{gor}.shape', f'{gor}.{bound}.shape'}
+                if isinstance(sh, ast.BinOp) and isinstance(sh.op, ast.Add) and \
+                        src(sh.right) in own:
+                    return dims_of(sh.left) == hw[:2]
+                if isinstance(sh, ast.Tuple) and sh.elts and \
+                        isinstance(sh.elts[-1], ast.Starred) and src(sh.elts[-1].value) in own:
+                    return dims_of(ast.Tuple(sh.elts[:-1], ast.Load())) == hw[:2]
+            return False
         r0 = retx[0] if len(retx) == 1 else None
         if r0 is not None:
             from ..inline import inline_methods_by_name
